@@ -23,9 +23,10 @@ let cz s = coqz_of_z (BZ.of_string s)
 let czi i = coqz_of_z (BZ.of_int i)
 let zs z = BZ.to_string (z_of_coqz z)
 
+(* payload token: 'x' followed by the hex digits (possibly none) *)
 let bytes_of_hex h =
-  let n = String.length h / 2 in
-  List.init n (fun i -> czi (int_of_string ("0x" ^ String.sub h (2 * i) 2)))
+  let n = (String.length h - 1) / 2 in
+  List.init n (fun i -> czi (int_of_string ("0x" ^ String.sub h (1 + 2 * i) 2)))
 
 let () =
   let ic = open_in Sys.argv.(1) in
